@@ -50,13 +50,25 @@ Theorem C20_never_farther :
       forall k, j < k <= List.length comps -> candidate fs name (dir_str (firstn k comps)) = None.
 Proof. exact loaded_is_nearest. Qed.
 
-(** Project location: the directory containing name.py, or the parent of the
-    package directory name/ . *)
+(** Project location, about the model's own answer: what [load] reports is
+    Path(file).parent for a module name.py and one level further up for a
+    package name/__init__.py. *)
 Theorem C20_parent :
-  forall fs name d f p,
-    candidate fs name d = Some (f, p) ->
-    p = d /\ (f = child d (name ++ ".py") \/ f = child (child d name) "__init__.py").
-Proof. exact parent_rule. Qed.
+  forall fs cwd name comps f p,
+    guard_abs fs comps name = true ->
+    load fs cwd name (dir_str comps) = Loaded f p ->
+    (f = child p (name ++ ".py") /\ p = path_parent f) \/
+    (f = child (child p name) "__init__.py" /\ p = path_parent (path_parent f)).
+Proof. exact parent_of_loaded. Qed.
+
+(** F-C20c: start "/a/b/.." (= /a) loads /a/b/tasks.py although /a/b is not
+    at or above the start point. *)
+Theorem C20_dotdot_start_refuted :
+  load fs_dotdot "/" "tasks" "/a/b/.." = Loaded "/a/b/tasks.py" "/a/b" /\
+  abs_comps "/" "/a/b/.." = ["a"] /\
+  expected fs_dotdot "tasks" (abs_comps "/" "/a/b/..") = None /\
+  spec_ok fs_dotdot "/" "/a/b/.." "tasks" (obs_of (load fs_dotdot "/" "tasks" "/a/b/..")) = false.
+Proof. exact dotdot_refutes. Qed.
 
 (** No candidate at any ancestor (root included): collection-not-found. *)
 Theorem C20_not_found :
